@@ -30,17 +30,17 @@ Theorem C06_mod_float_refuted_witnesses :
 Proof. exact mod_old_refuted. Qed.
 Print Assumptions C06_mod_float_refuted_witnesses.
 
-(* current ModFloat, exactly: it agrees with CPython iff (r = fmod(a,b)) NOT
-     (b infinite, r not NaN, no adjustment)  or  (r = +0 and b negative finite).
-   Hypotheses: 1.0 * b = b (IEEE; see the report) and fmod(a, NaN) = NaN (C99 F.9.7.1). *)
+(* current ModFloat, exactly: with r = fmod(a, b) it agrees with CPython iff NOT
+     (b infinite, r not NaN, no adjustment by b)  or  (r = +0 and b a negative finite number).
+   Only hypothesis: fmod(a, NaN) = NaN (C99 F.9.7.1).  "partial": this is the theorem for the
+   tree as it is, on the exact complement of finding F2 (and its converse inside the class). *)
 Theorem C06_mod_float_current_partial : forall (fmod : F -> F -> F),
-  (forall b, fvalid b = true -> fmul fone b = b) ->
   (forall a, fmod a S754_nan = S754_nan) ->
   forall a b, fvalid b = true ->
   (mod_old_bad (fmod a b) b = false -> mod_node fmod false a b = py_float_rem fmod a b) /\
   (feqb b fzero = false -> mod_old_bad (fmod a b) b = true ->
      mod_node fmod false a b <> py_float_rem fmod a b).
-Proof. exact mod_old_characterised. Qed.
+Proof. exact mod_old_characterised_ieee. Qed.
 Print Assumptions C06_mod_float_current_partial.
 
 (* ===== a // b on C doubles (DivNode: floor(a / b)) ===== *)
